@@ -851,14 +851,15 @@ fn compare_poses(ta: &Isometry3<f64>, tb: &Isometry3<f64>,
     let translation_distance = (ta.translation.vector - tb.translation.vector).norm();
     let angular_distance = ta.rotation.angle_to(&tb.rotation);
 
-    if translation_distance.abs() > distance_tolerance {
+    // (written so that a NaN distance fails the comparison)
+    if !(translation_distance.abs() <= distance_tolerance) {
         if DEBUG {
             println!("Positioning error: {}", translation_distance);
         }
         return false;
     }
 
-    if angular_distance.abs() > angular_tolerance {
+    if !(angular_distance.abs() <= angular_tolerance) {
         if DEBUG {
             println!("Orientation errors: {}", angular_distance);
         }
